@@ -35,6 +35,8 @@ func runC03(r *an.Run) {
 	slotGuard(r, "R6-slot-assigned-iff-assignable")
 	c03SlotAlwaysAssignedWhenAdmissible(r)
 	compiledProgramReadOnly(r, "R7-compiled-program-is-read-only")
+	c01AllMatchesReplaced(r)
+	relabel(r, "R2-every-match-replaced", "R8-every-site-rewritten")
 }
 
 func c03Siblings(r *an.Run) {
